@@ -288,6 +288,32 @@ func dedupe(in []*big.Int) []*big.Int {
 	return out
 }
 
+// WordShapes: coefficients whose high 64-bit word sits at a decimal threshold (the multi-word helpers guard their fast
+// paths with comparisons of the high word against 10, 100, 1000, 10^4, 10^8, 10^19/2^64 ...), with extreme low words.
+func WordShapes() []*big.Int {
+	var out []*big.Int
+	var his []uint64
+	p := uint64(1)
+	for k := 0; k <= 14; k++ {
+		his = append(his, p-1, p, p+1)
+		p *= 10
+	}
+	his = append(his, 5, 50, 500, 0x18fe, 0x1900, 0x27ffe, 0x28000, 0x1fffffffffffe, 0x1ffffffffffff, 0x2000000000001)
+	for _, h := range his {
+		if h == 0 {
+			continue
+		}
+		for _, l := range []uint64{0, 1, 1 << 63, ^uint64(0), 0x8ac7230489e80000 /* 10^19 */, 0x8ac7230489e7ffff} {
+			z := new(big.Int).Lsh(new(big.Int).SetUint64(h), 64)
+			z.Or(z, new(big.Int).SetUint64(l))
+			if z.Cmp(ref.Cmax) <= 0 {
+				out = append(out, z)
+			}
+		}
+	}
+	return dedupe(out)
+}
+
 var quickLens = []int{1, 2, 3, 4, 5, 8, 9, 10, 16, 17, 18, 19, 20, 21, 33, 34, 35}
 
 // Shapes is the coefficient alphabet K.
@@ -297,6 +323,7 @@ func Shapes(thorough bool) []*big.Int {
 		for L := 1; L <= 35; L++ {
 			out = append(out, ShapesLen(L)...)
 		}
+		out = append(out, WordShapes()...)
 	} else {
 		inQuick := map[int]bool{}
 		for _, L := range quickLens {
